@@ -512,7 +512,7 @@ def gen_scenario(rng, force=None):
     tags = set()
     R = rng.choice([2, 3, 3, 4, 4, 5, 6, 8])
     kind = force or rng.choice(["seq_pre", "seq_pre", "seq_jit", "inter_jit", "inter_jit", "inter_pre", "trunc", "dup",
-                                "stale", "mixed"])
+                                "stale", "mixed", "skew", "skew"])
     tags.add(kind)
     t = float(rng.randrange(100, 5000))
     ng = rng.randint(1, 4)
@@ -542,6 +542,14 @@ def gen_scenario(rng, force=None):
             if rng.random() < 0.5:
                 b.add(r, TID_CMPT, t + r, 10, f"mm_{gid} Cmpt Exec", {"jobhash": 7} if rng.random() < 0.7 else None)
         t += 20
+    if kind == "skew":
+        # one rank's clock runs ahead of the others by milliseconds (no clock alignment, -M): every group stays
+        # partly collected while the other ranks' events of LATER groups arrive; far below the 20 s stale window
+        rs = rng.randrange(R)
+        skew = float(rng.choice([1500, 6000, 6000, 100000]))
+        for e in b.ev:
+            if e["pid"] == rs:
+                e["ts"] += skew
     evs = b.sorted()
     if kind == "trunc":
         # incomplete trailing group: cut the stream somewhere inside the last group
